@@ -68,6 +68,17 @@ Wake(s, on) == IF s.task.pc = on /\ ~s.task.woken
                THEN [s EXCEPT !.task.woken = TRUE, !.sched = Append(@, "task")] ELSE s
 
 (* ----------------------------------------------------------------------------------------------- *)
+(* persistence: Process.save_instance_state / load_instance_state / recreate_from (C07, C08, C13)  *)
+(* ----------------------------------------------------------------------------------------------- *)
+\* what a bundle holds: the state object with its function BY NAME and its arguments, the savable futures,
+\* the status pair and the outputs.  Runtime members (stepping flag, interrupt actions, waiting future,
+\* the stepping task, closedness) are not persisted.  nlog/expect are bookkeeping of the harness/monitors.
+Persist(s) == [has |-> TRUE, st |-> s.st, cur |-> s.cur, pausedF |-> s.pausedF, status |-> s.status,
+               preStatus |-> s.preStatus, fut |-> s.fut, outputs |-> s.outputs,
+               nlog |-> Len(s.log), expect |-> s.mon.expect]
+TakeSnapshot(s) == LET s1 == Note(s, <<"saved">>) IN [s1 EXCEPT !.snap = Persist(s1)]
+
+(* ----------------------------------------------------------------------------------------------- *)
 (* user code at hook points                                                                        *)
 (* ----------------------------------------------------------------------------------------------- *)
 \* the program and the plan of a behaviour are chosen in Init and recorded in the state
@@ -119,6 +130,7 @@ Hook(s, name) ==
               [] p.req = "pause"  -> Ok(CallPause(s1, p.arg, name), None)
               [] p.req = "play"   -> Ok(CallPlay(s1, name), None)
               [] p.req = "resume" -> Ok(CallResume(s1, p.arg, name), None)
+              [] p.req = "save"   -> Ok(TakeSnapshot(s1), None)      \* user code checkpoints the process here
               [] OTHER            -> Ok(s1, None)
 
 \* EventHelper.fire_event: listener exceptions are logged and swallowed
@@ -451,9 +463,19 @@ InitS(pi, pl) ==
    closed |-> FALSE, cleaned |-> 0, outputs |-> <<>>,
    task |-> [pc |-> "top", k |-> 0, fn |-> 0, wfn |-> 0, woken |-> FALSE, err |-> None],
    sched |-> <<>>, occ |-> [h \in PlanHooks |-> 0],
-   log |-> <<>>, bad |-> {}, dev |-> {},
+   log |-> <<>>, bad |-> {}, dev |-> {}, snap |-> [has |-> FALSE], restores |-> 0,
    mon |-> [killAcc |-> FALSE, killTexts |-> {}, cancelled |-> FALSE, lastPlay |-> FALSE,
             resumed |-> FALSE, resumeVal |-> None, expect |-> <<>>]]
+
+\* The running instance is abandoned and the bundle loaded in a fresh event loop (recreate_from + init()):
+\* persisted members from the bundle, runtime members as after construction, a new stepping task.
+\* Events of the abandoned instance after the checkpoint do not count (log cut at the checkpoint).
+Restore(s) ==
+  LET b == s.snap IN
+  [InitS(s.pi, s.pl) EXCEPT !.st = b.st, !.cur = b.cur, !.pausedF = b.pausedF, !.status = b.status,
+                            !.preStatus = b.preStatus, !.fut = b.fut, !.outputs = b.outputs,
+                            !.log = Append(SubSeq(s.log, 1, b.nlog), <<"restored">>),
+                            !.occ = s.occ, !.snap = b, !.restores = s.restores + 1, !.mon.expect = b.expect]
 
 Init == /\ \E pi \in 1..Len(Progs), pl \in 1..Len(Plans) : S = InitS(pi, pl)
         /\ ready = <<"task">> /\ budget = K
@@ -495,6 +517,8 @@ EnvResume(v)      == Offered("resume") /\ Env(StepResume(S, ready, v))
 EnvFail           == Offered("fail") /\ Env(StepFail(S, ready))
 EnvCancel         == Offered("cancel") /\ S.fut.st = "pending" /\ Env(StepCancel(S, ready))
 EnvCallSoon(kind) == Offered("cb" \o kind) /\ Env(StepCallSoon(S, ready, kind))     \* kind: "ok" | "raise"
+EnvSave           == Offered("save") /\ ~S.stepping /\ Env([s |-> TakeSnapshot(S), rdy |-> ready])
+EnvRestore        == Offered("restore") /\ S.snap.has /\ Env([s |-> Restore(S), rdy |-> <<"task">>])
 RunHandle         == ready # <<>> /\ LET r == StepRun(S, ready) IN S' = r.s /\ ready' = r.rdy /\ UNCHANGED budget
 
 KillTexts   == {"k1"}
@@ -509,6 +533,7 @@ Next ==
   \/ EnvFail
   \/ EnvCancel
   \/ EnvCallSoon("ok") \/ EnvCallSoon("raise")
+  \/ EnvSave \/ EnvRestore
   \/ RunHandle
 
 Spec == Init /\ [][Next]_vars
